@@ -82,9 +82,13 @@ const REFS = {
   block: '\n/*# sourceMappingURL=x.map */',
   two: '\n//# sourceMappingURL=x.map\nfunction g(){}\n//# sourceMappingURL=y.map',
   midFile: '\n//# sourceMappingURL=x.map\nfunction g(c){ return c + 1 }',
-  http: '\n//# sourceMappingURL=http://example.com/x.map'
+  http: '\n//# sourceMappingURL=http://example.com/x.map',
+  // several references trailing the same token
+  twoSameToken: '\n//# sourceMappingURL=x.map\n//# sourceMappingURL=y.map',
+  blockThenLine: ' /*# sourceMappingURL=x.map */ //# sourceMappingURL=y.map',
+  threeSameToken: '\n//# sourceMappingURL=x.map\n//# sourceMappingURL=data:application/json;base64,' + b64(VALID_MAP) + '\n/*# sourceMappingURL=y.map */'
 }
-const NEEDS_READER = new Set(['relative', 'dotRelative', 'upRelative', 'absolute', 'spaces', 'nul', 'longUrl', 'nonAscii', 'block', 'two', 'midFile', 'http', 'emptyUrl', 'dataOnly', 'inlineBadB64', 'inlineOtherMime', 'inlineNotJson'])
+const NEEDS_READER = new Set(['relative', 'dotRelative', 'upRelative', 'absolute', 'spaces', 'nul', 'longUrl', 'nonAscii', 'block', 'two', 'midFile', 'http', 'emptyUrl', 'dataOnly', 'inlineBadB64', 'inlineOtherMime', 'inlineNotJson', 'twoSameToken', 'blockThenLine', 'threeSameToken'])
 
 function weirdConfigs () {
   const out = []
@@ -221,6 +225,31 @@ async function build (tier) {
       leaves.push({ fam: 'url', key: 'url:' + u, code: 'function f(a, b) {\n  return a + b\n}\n//# sourceMappingURL=' + u + '\n', file: '/p/app.js', config: Object.assign({}, C.FULL, { chainSourceMap: true, comments: true }), vfs: { '*': READER_ANSWERS.valid } })
     }
   }
+  // (iii-c) every sequence of <= Lr trailing items (references of each kind, ordinary comments, more code)
+  // after a modified function: several references may hang off one token or off different ones
+  {
+    const ITEMS = {
+      lineRel: '\n//# sourceMappingURL=x.map',
+      lineInline: '\n//# sourceMappingURL=data:application/json;base64,' + b64(VALID_MAP),
+      blockRel: ' /*# sourceMappingURL=y.map */',
+      plainLine: '\n// just a comment',
+      plainBlock: ' /* just a comment */',
+      code: '\nfunction g(c){ return c + 1 }',
+      semi: ';'
+    }
+    const Lr = thorough ? 5 : 4
+    const dims = []
+    for (let i = 0; i < Lr; i++) dims.push({ name: 'i' + i, symbols: [''].concat(Object.keys(ITEMS)), free: true })
+    dims.push({ name: 'chain', symbols: [true, false], free: true })
+    dims.push({ name: 'comments', symbols: [true, false], free: true })
+    const r = enumerate(dims, { valid: (cur, i) => i === 0 || i >= Lr || !(cur['i' + (i - 1)] === '' && cur['i' + i] !== '') })
+    stats = addStats(stats, r.stats)
+    for (const l of r.leaves) {
+      let tail = ''; const names = []
+      for (let i = 0; i < Lr; i++) if (l.pick['i' + i]) { tail += ITEMS[l.pick['i' + i]]; names.push(l.pick['i' + i]) }
+      leaves.push({ fam: 'refseq', key: `refseq:${names.join('+')}:${l.pick.chain}:${l.pick.comments}`, code: 'function f(a, b) {\n  return a + b\n}' + tail + '\n', file: '/p/app.js', config: Object.assign({}, C.FULL, { chainSourceMap: l.pick.chain, comments: l.pick.comments }), vfs: { '*': READER_ANSWERS.valid } })
+    }
+  }
   // (iv) configurations
   {
     const cfgs = weirdConfigs()
@@ -295,7 +324,7 @@ module.exports = {
   requests,
   check,
   timeoutMs: 30000,
-  rule: 'leaves = every token string of length<=L over a 14-token alphabet (raw and inside a function body), every single-token del/dup/substitution/prefix of 40 seed programs, the full product file-name x map-reference x reader-answer x chain x comments x parent-mode, 2^6 option-presence patterns x verbosity spellings + malformed configs, and every byte offset 0..255 of a multi-byte character in leading text; every leaf is one real rewrite call, all are non-trivial (each is a distinct input tuple; distinctness by hash of (code,file,config,vfs,parent-mode))',
+  rule: 'leaves = every token string of length<=L over a 14-token alphabet (raw and inside a function body), every single-token del/dup/substitution/prefix of 40 seed programs, the full product file-name x map-reference x reader-answer x chain x comments x parent-mode, every sequence of <= 4 (5) trailing references/comments/code items x chain x comments, 2^6 option-presence patterns x verbosity spellings + malformed configs, and every byte offset 0..255 of a multi-byte character in leading text; every leaf is one real rewrite call, all are non-trivial (each is a distinct input tuple; distinctness by hash of (code,file,config,vfs,parent-mode))',
   explanation: 'explicit enumeration of the input/fault space executed against the real rewriter (Rust sources of the working tree) under catch_unwind + watchdog; oracle = call returns Ok or Err(non-empty message)',
   assumptions: ['native build of the rewriter (serde_json instead of serde-wasm-bindgen; in-memory FileReader with both the trait-default and a Node-dirname `parent`)', 'pathological nesting depth excluded by the property statement; no deep-nesting inputs are generated', 'watchdog 30 s per call']
 }
